@@ -97,20 +97,25 @@ class GunicornWebWorker(base.Worker):  # type: ignore[misc,no-any-unimported]
                 ),
                 shutdown_timeout=self.cfg.graceful_timeout / 100 * 95,
             )
-        await runner.setup()
+        try:
+            await runner.setup()
 
-        ctx = self._create_ssl_context(self.cfg) if self.cfg.is_ssl else None
+            ctx = self._create_ssl_context(self.cfg) if self.cfg.is_ssl else None
 
-        assert runner is not None
-        server = runner.server
-        assert server is not None
-        for sock in self.sockets:
-            site = web.SockSite(
-                runner,
-                sock,
-                ssl_context=ctx,
-            )
-            await site.start()
+            assert runner is not None
+            server = runner.server
+            assert server is not None
+            for sock in self.sockets:
+                site = web.SockSite(
+                    runner,
+                    sock,
+                    ssl_context=ctx,
+                )
+                await site.start()
+        except BaseException:
+            # Exit the cleanup contexts entered before the failing startup step.
+            await runner.cleanup()
+            raise
 
         # Sockets are bound; tell the arbiter the worker is ready to
         # accept requests. Any failure before this point propagates out
